@@ -46,3 +46,35 @@ package hook
 //@     invariant len(hooksRelativePaths) == 0 || base(hm.hookNamesInOrder) != base(hooksRelativePaths)
 //@   loop 2
 //@     invariant nLoad == atloop(nLoad)
+
+// ---- C06: onStartup hooks run in ascending ORDER, alphabetically among equal ORDER ----------
+
+// the comparator handed to the sort: by onStartup order only
+//@ func (*Manager).GetHooksInOrder$1
+//@   prop C06
+//@   requires 0 <= i && i < len(hooks) && 0 <= j && j < len(hooks)
+//@   requires hooks[i] != nil && hooks[i].Config != nil && hooks[i].Config.OnStartup != nil && hooks[j] != nil && hooks[j].Config != nil && hooks[j].Config.OnStartup != nil
+//@   modifies nothing
+//@   ensures [by-order] result == (hooks[i].Config.OnStartup.Order < hooks[j].Config.OnStartup.Order)
+
+// Requires what Init establishes: the index lists hooks in lexical order of their names.
+//@ func (*Manager).GetHooksInOrder
+//@   prop C06
+//@   requires forall(a, 0, len(hm.hooksInOrder[bindingType]), hm.hooksInOrder[bindingType][a] != nil && hm.hooksInOrder[bindingType][a].Config != nil)
+//@   requires forall(a, 0, len(hm.hooksInOrder[bindingType]), forall(b, 0, len(hm.hooksInOrder[bindingType]), a < b ==> hm.hooksInOrder[bindingType][a].Name < hm.hooksInOrder[bindingType][b].Name))
+//@   modifies elems(hm.hooksInOrder[bindingType])
+//@   ensures [names]         result1 == nil && has(hm.hooksInOrder, bindingType) ==> len(result0) == len(hm.hooksInOrder[bindingType]) && forall(a, 0, len(result0), result0[a] == hm.hooksInOrder[bindingType][a].Name)
+//@   ensures [startup-order] result1 == nil && bindingType == htypes.OnStartup ==> forall(a, 0, len(hm.hooksInOrder[bindingType]), forall(b, 0, len(hm.hooksInOrder[bindingType]), a < b ==>
+//@        hm.hooksInOrder[bindingType][a].Config.OnStartup.Order < hm.hooksInOrder[bindingType][b].Config.OnStartup.Order
+//@        || (hm.hooksInOrder[bindingType][a].Config.OnStartup.Order == hm.hooksInOrder[bindingType][b].Config.OnStartup.Order && hm.hooksInOrder[bindingType][a].Name < hm.hooksInOrder[bindingType][b].Name)))
+//@   ensures [other-order]   result1 == nil && bindingType != htypes.OnStartup ==> sameseq(hm.hooksInOrder[bindingType], old(hm.hooksInOrder[bindingType]))
+//@   callsite sort.Slice
+//@     modifies elems(hooks)
+//@     witness pi map[int]int
+//@     ensures forall(a, 0, len(hooks), 0 <= pi[a] && pi[a] < len(hooks) && hooks[a] == old(hooks[pi[a]]))
+//@     ensures forall(a, 0, len(hooks), forall(b, 0, len(hooks), a < b ==> hooks[a].Config.OnStartup.Order <= hooks[b].Config.OnStartup.Order))
+//@   loop 1
+//@     invariant 0 <= iter() && iter() <= len(hooks) && forall(a, 0, iter(), hooks[a].Config.OnStartup != nil)
+//@   loop 2
+//@     invariant 0 <= iter() && iter() <= len(hooks) && fresh(hooksNames) && len(hooksNames) == iter()
+//@     invariant forall(a, 0, iter(), hooksNames[a] == hooks[a].Name)
